@@ -28,6 +28,7 @@
 
 #include "common/session.h"
 #include "common/wirepeer.h"
+#include "common/msepeer.h"
 #include "data/chunk_list.h"
 #include "protocol/extensions.h"
 #include "torrent/data/file_list.h"
@@ -256,22 +257,66 @@ static std::string run_one(Session& S, RoleCtx& rc, std::map<std::string, std::s
   WirePeer P;
   if (!connect_hostile(S, P, rc.T, rc.healthy.get())) return "ERR:connect";
   const bool meta = kv["role"] == "meta";
-  std::string hello = WirePeer::handshake(T->info_hash, peer_id(g_conn_no), meta ? WirePeer::reserved_ext() : std::string(8, '\0'));
-  if (kv["bits"] != "-") hello += WirePeer::bitfield(kv["bits"]);
-  else if (ho.empty()) hello += WirePeer::keepalive();
-  hello += ho;
-  P.send_bytes(hello);
-  pump(S, {&P});
+  // enc=1: the hostile peer negotiates MSE (initiator, RC4 only) with the independent implementation in
+  // common/msepeer.h; everything after the negotiation, the BT handshake included, is RC4 encrypted.
+  const bool want_enc = kv.count("enc") && kv["enc"] == "1";
+  std::unique_ptr<MseEnd> mse;
+  bool enc_active = false;
+  auto tx = [&](const std::string& b) { P.send_bytes(enc_active ? mse->enc(b) : b); };
+  auto epump = [&]() {
+    size_t before = P.rx.size();
+    pump(S, {&P});
+    if (enc_active && P.rx.size() > before) {
+      std::string c = P.rx.substr(before);
+      P.rx.replace(before, std::string::npos, mse->dec(c));
+    }
+  };
+  std::string bt = WirePeer::handshake(T->info_hash, peer_id(g_conn_no), meta ? WirePeer::reserved_ext() : std::string(8, '\0'));
+  std::string after_bt;
+  if (kv["bits"] != "-") after_bt += WirePeer::bitfield(kv["bits"]);
+  else if (ho.empty()) after_bt += WirePeer::keepalive();
+  after_bt += ho;
+  if (want_enc) {
+    mse = std::make_unique<MseEnd>(77000 + g_conn_no, true);
+    P.send_bytes(mse->pubkey());
+    pump(S, {&P});
+    if (P.rx.size() < 96) return "ERR:mse-no-key";
+    mse->set_remote_key(P.rx.substr(0, 96));
+    mse->start_ciphers(T->info_hash);
+    auto be16 = [](unsigned v) { char b[2] = {char(v >> 8), char(v)}; return std::string(b, 2); };
+    std::string neg = std::string(8, '\0') + WirePeer::be32(2) + be16(0) + be16((unsigned)bt.size());
+    std::string m2 = mse->req1() + mse->req2xor3(T->info_hash);
+    m2 += mse->enc(neg);   // sequenced: both use the same keystream
+    m2 += mse->enc(bt);
+    P.send_bytes(m2);
+    pump(S, {&P});
+    std::string pat = mse->vc_pattern_in();
+    size_t at = P.rx.find(pat, 96);
+    if (at == std::string::npos || P.rx.size() < at + 14) return "ERR:mse-no-vc rx=" + std::to_string(P.rx.size()) + " eof=" + std::to_string(P.eof) + " hs=" + std::to_string(S.handshake_count());
+    std::string sel = mse->dec(P.rx.substr(at, 14));
+    unsigned padd = ((unsigned char)sel[12] << 8) | (unsigned char)sel[13];
+    if (P.rx.size() < at + 14 + padd) return "ERR:mse-short-pad";
+    mse->dec(P.rx.substr(at + 14, padd));
+    if ((unsigned char)sel[11] != 2) return "ERR:mse-select-" + std::to_string((int)(unsigned char)sel[11]);
+    std::string rest = P.rx.substr(at + 14 + padd);
+    P.rx = mse->dec(rest);
+    enc_active = true;
+    tx(after_bt);
+  } else {
+    P.send_bytes(bt + after_bt);
+  }
+  epump();
   HandshakeIn hs;
   if (!P.take_handshake(hs) || hs.info_hash != T->info_hash) return "ERR:handshake";
   uint16_t port = P.local_port();
   torrent::PeerConnectionBase* pcb = S.find_connection(T, port);
   if (pcb == nullptr) { d2 = "alive=0 resp=-"; return "closed=1"; }
+  if (want_enc && !pcb->is_encrypted()) return "ERR:mse-not-encrypted";
   if (kv["pre"] == "1") {
-    P.send_bytes(WirePeer::interested());
-    pump(S, {&P});
+    tx(WirePeer::interested());
+    epump();
     S.advance_us(11 * 1000000);
-    pump(S, {&P});
+    epump();
   }
   drop_messages(P);
   // hold the write side in ProtocolWrite::MSG
@@ -286,7 +331,7 @@ static std::string run_one(Session& S, RoleCtx& rc, std::map<std::string, std::s
   if (seg.cap) Session::set_recv_chunk(port, seg.cap);
   size_t pos = 0;
   for (size_t n : seg.lens) {
-    P.send_bytes(stream.substr(pos, n));
+    tx(stream.substr(pos, n));
     pos += n;
     for (int i = 0; i < 1000 && !P.tx_pending.empty() && !P.eof; i++) { S.step(); P.flush(); }
     S.step();
@@ -296,7 +341,7 @@ static std::string run_one(Session& S, RoleCtx& rc, std::map<std::string, std::s
   // release the writer, read what comes back
   Session::set_send_budget(port, -1);
   Session::set_recv_chunk(port, 0);
-  pump(S, {&P});
+  epump();
   bool alive = S.find_connection(T, port) != nullptr;
   d2 = std::string("alive=") + (alive ? "1" : "0") + " resp=" + responses(P, T);
   P.close_all();
